@@ -285,6 +285,8 @@ def run(tier, seed):
     par.pmap(work_zoo, zoo.names(tier), stats=st, chunk=6)
     from props import delivery as _DL
     par.pmap(_DL.work, _DL.tasks(tier), extra=(('connections',),), stats=st, chunk=12)
+    from props import decor as _DC
+    par.pmap(_DC.work, _DC.tasks(tier), extra=(('footprint',),), stats=st, chunk=8)
     check_no_dos_without_option(st)
     vcases = []
     for arch, short, plan, rate in H.pick([t for t in tasks if not t[3] and t[0] != 'G'], seed, 20 if tier == 'quick' else 100):
